@@ -74,9 +74,9 @@ func c15Cases(tier string, seed uint64, flavor string) []lib.Case {
 		n, runs = 400, 16
 	}
 	if flavor == "race" {
-		n = 15
+		n, runs = 12, 4
 		if tier == "thorough" {
-			n = 100
+			n, runs = 100, 8
 		}
 	}
 	comps := []lib.Comp{{Algo: "none"}, {Algo: "gzip", Quality: 1}, {Algo: "brotli", Quality: 1}, {Algo: "none"}}
